@@ -20,17 +20,21 @@ ASSUMPTIONS = [
     "(Go's AddDate is not modelled)",
     "RewardInterval/BlockSpeedCalculateCycle > 0 and unchanged during a run (governance updates of reward options are outside the model)",
     "storage errors (Set/Get failing) are outside the model",
+    "export/import: theorems are about the interval record of a chain that started from an ordinary genesis (first relaunch); the relaunched chain "
+    "keeps the reward interval; the harness imports the rewards state only (other stores start from the same genesis as the exporting chain)",
     "WITHDRAW_REWARD on the application path: the model withdraw_tx covers the amount checks of Validate (45cfd0d, ed95e98), the int64 narrowing of "
     "ToCoinWithBase and the balance/pool sufficiency; signer = the validator's stake address and a funded fee payer in all generated transactions",
 ]
 
 MISMATCH = {1: "cold pull", 7: "warm pull", 2: "validator credits", 3: "delegator credits", 4: "consumed total",
-            8: "WITHDRAW_REWARD verdict/records", 5: "year records", 6: "matured/cumulative records", 9: "model predicts a panic"}
+            8: "WITHDRAW_REWARD verdict/records", 13: "exported interval record (DumpState) differs from the model's dump", 5: "year records", 6: "matured/cumulative records", 9: "model predicts a panic"}
 VIOL = {10: "rewards credited in a block (validators' chunks + all delegator reward balances, proposer bonus included) exceed the amount pulled for that block", 11: "negative credit", 12: "negative pulled amount",
         20: "per-block amount depends on a restart (warm cache <> cold cache)",
         21: "pulled amount above the remaining year supply / the pool-capped burnout rate",
         30: "cumulative invariant broken (balance < 0 or balance + withdrawn <> matured)",
         31: "a withdrawal paid more than the matured balance",
+        33: "a validator's matured rewards (balance + withdrawn) exceed what was ever credited to it (sum of its chunks), e.g. a chunk matured twice across an export/import",
+        34: "all matured rewards together exceed the total distributed",
         32: "a WITHDRAW_REWARD amount that is negative or outside int64 was accepted (CheckTx or DeliverTx) or changed the cumulative records"}
 KNOWN = {}   # monitor code -> trigger id of a finding with status "known" (none at present: all three are fixed)
 
@@ -194,7 +198,9 @@ def run(ctx):
         "rule": "seeded generators: whole-app chains (1-8 genesis validators, 3 power patterns, absent-signer patterns none/one/half/all, "
                 "delegation pool none/tiny/huge/medium/balance-only, stake/delegate/undelegate/withdraw-reward transactions, in half of the chains "
                 "network-delegation traffic (delegate 40-250000 OLT, undelegate 50-90% as the last delegation-store transaction of a block, undelegations "
-                "that are only CheckTx'ed), two directed witnesses (delegate 1000 / undelegate 900 delivered or only checked), restarts, 5 block-time "
+                "that are only CheckTx'ed), in a third of the chains an export/import relaunch (RewardMasterStore.DumpState on the running chain at a version "
+                "that is a multiple of the reward interval, one off, or arbitrary; JSON round trip; new app from a genesis holding the dump; one validator stops "
+                "signing after the import), three directed witnesses (delegate 1000 / undelegate 900 delivered or only checked; export at a maturity block), restarts, 5 block-time "
                 "patterns incl. month jumps and sub-second blocks, 1-3 reward years, cycle 1-10, interval 1-5); calculator runs over a real block "
                 "store (cycle up to 25, warm and cold twin stores, restarts); cumulative store operation sequences; distinct = distinct recorded "
                 "block records + calculator steps + store operations",
